@@ -2,11 +2,12 @@ package smtp
 
 // BOUNDED stand-in (never counted as proved) for the client half of C17: the reply that the real
 // writeResponse/writeError puts on the wire for a backend SMTPError is turned back into an equal
-// SMTPError by the real client path (textproto.ReadResponse + toSMTPErr). The deductive check covers
+// SMTPError by the real client path (Client.readResponse: textproto.ReadResponse + toSMTPErr), whether or
+// not the client has learnt the server's capabilities yet. The deductive check covers
 // the server half (what is written); the client half parses text with library code.
 
 import (
-	"bufio"
+	"bytes"
 	"fmt"
 	"net/textproto"
 	"strings"
@@ -37,19 +38,22 @@ func TestBoundedC17(t *testing.T) {
 				want := &SMTPError{Code: code, EnhancedCode: enh, Message: msg}
 				c.writeError(451, EnhancedCode{4, 0, 0}, want)
 				wire := rwc.String()
-				_, _, err := textproto.NewReader(bufio.NewReader(strings.NewReader(wire))).ReadResponse(250)
-				pe, ok := err.(*textproto.Error)
-				if !ok {
-					res.fail(fmt.Sprintf("%#v", want), fmt.Sprintf("wire %q: the reader reports %v", wire, err))
-					continue
-				}
-				got := toSMTPErr(pe)
 				wantEnh := enh
 				if wantEnh == EnhancedCodeNotSet {
 					wantEnh = EnhancedCode{cls, 0, 0}
 				}
-				if got.Code != code || got.EnhancedCode != wantEnh || got.Message != msg {
-					res.fail(fmt.Sprintf("%#v", want), fmt.Sprintf("wire %q comes back as %#v", wire, got))
+				// the real client path, before and after capabilities have been learnt
+				for _, ext := range []map[string]string{nil, {"ENHANCEDSTATUSCODES": ""}} {
+					cl := &Client{text: textproto.NewConn(&boundedRWC{Buffer: *bytes.NewBufferString(wire)}), ext: ext}
+					_, _, err := cl.readResponse(250)
+					got, ok := err.(*SMTPError)
+					if !ok {
+						res.fail(fmt.Sprintf("%#v", want), fmt.Sprintf("wire %q: the client reports %v", wire, err))
+						continue
+					}
+					if got.Code != code || got.EnhancedCode != wantEnh || got.Message != msg {
+						res.fail(fmt.Sprintf("%#v", want), fmt.Sprintf("wire %q comes back as %#v (capabilities known: %v)", wire, got, ext != nil))
+					}
 				}
 			}
 		}
